@@ -83,20 +83,20 @@ type pubActor struct {
 }
 
 type pubScn struct {
-	w       *vfWorld
-	r       *vfkit.R
-	focus   string
-	kind    string
-	canon   string
-	chn     string
-	actors  []*pubActor
-	owner   *pubActor
-	script  []string
-	tainted map[types.Uid]bool
+	w             *vfWorld
+	r             *vfkit.R
+	focus         string
+	kind          string
+	canon         string
+	chn           string
+	actors        []*pubActor
+	owner         *pubActor
+	script        []string
+	tainted       map[types.Uid]bool
 	noteStepFixed *[2]any
 	c09st         *c09State
 	onMe          bool
-	readonly bool
+	readonly      bool
 }
 
 func (sc *pubScn) nameFor(a *pubActor) string {
@@ -473,7 +473,7 @@ func (sc *pubScn) pubStep(a *pubActor, c *vfClient, stepNo int) {
 			if attach[cl][rname] {
 				if ra.chanSub {
 					_, eligible = chnRows[ru.uid]
-				} else if row, ok := grpRows[ru.uid]; ok && row.DeletedAt == nil && (row.ModeWant&row.ModeGiven).IsReader() {
+				} else if row, ok := grpRows[ru.uid]; ok && row.DeletedAt == nil && (row.ModeWant & row.ModeGiven).IsReader() {
 					eligible = true
 				}
 			}
